@@ -117,6 +117,16 @@ func (cf *cmtFlow) funcValues(v ssa.Value, depth int) []*ssa.Function {
 			}
 		}
 		return out
+	case *ssa.UnOp:
+		// a package-level function variable: what the repo stores into it (a method expression, a closure, a function)
+		if g, ok := x.X.(*ssa.Global); ok && x.Op == token.MUL {
+			var out []*ssa.Function
+			vals, _ := globalStoredValues(g)
+			for _, sv := range vals {
+				out = append(out, cf.funcValues(sv, depth+1)...)
+			}
+			return out
+		}
 	case *ssa.Parameter:
 		fn := x.Parent()
 		idx := -1
@@ -589,12 +599,8 @@ func c09CommentDelivery(w *World, r *Report) {
 	var seeds []seed
 	for _, fn := range cf.fns {
 		forEachInstr(fn, func(_ *ssa.BasicBlock, ins ssa.Instruction) {
-			c, ok := ins.(*ssa.Call)
-			if !ok || c.Call.StaticCallee() == nil {
-				return
-			}
-			n := c.Call.StaticCallee().Name()
-			if n == "GetHiddenTokensToLeft" || n == "GetHiddenTokensToRight" {
+			// written as a method call, or made through a function value that can only be one of the two queries
+			if c, ok := ins.(*ssa.Call); ok && isHiddenQueryCall(c) {
 				seeds = append(seeds, seed{c, fn})
 			}
 		})
